@@ -1375,11 +1375,12 @@ def typeof_pyobj(t):
            z3.If(P.is_OFloat(t), type_const('float'),
            z3.If(P.is_OStr(t), type_const('str'),
            z3.If(P.is_OBytes(t), type_const('bytes'),
-                 typeof_other(P.oo(t))))))))
+           z3.If(P.is_OType(t), type_const('type'),
+                 typeof_other(P.oo(t)))))))))
 
 
 def distinct_type_axioms():
-    names = ['NoneType', 'bool', 'int', 'float', 'str', 'bytes']
+    names = ['NoneType', 'bool', 'int', 'float', 'str', 'bytes', 'type']
     cs = [type_const(n) for n in names]
     ax = [z3.Distinct(*cs)]
     o = z3.Const('o_ax', OTHER)
